@@ -1068,6 +1068,12 @@ impl World {
                         DogVerdict::KeepWaiting => continue,
                         DogVerdict::Stuck(why) => {
                             drop(b);
+                            // the thread is leaked; if it spins it must not starve the rest of
+                            // this worker (which is pinned to the same core): idle priority
+                            unsafe {
+                                let param: libc::sched_param = std::mem::zeroed();
+                                libc::sched_setscheduler(sync.tid.load(Ordering::SeqCst), libc::SCHED_IDLE, &param);
+                            }
                             let n = &mut self.nodes[node];
                             n.alive = false;
                             n.blocked = true;
